@@ -45,6 +45,9 @@ type c47Member struct {
 	who   string
 	index int
 	late  bool // started only after the competing success
+	// racer: started once everybody else is in place; the competing success
+	// lands during its state query (right after the stub answered "not yet")
+	racer bool
 	run   func() error
 	waits int // eligibility waits this participant registers (an operator with several seats: one per seat)
 }
@@ -77,6 +80,10 @@ type c47Group struct {
 	// gate holds back chain calls made while the members are still being
 	// launched (a member whose slot is the current block submits at once)
 	gate chan struct{}
+	// raceWho: the participant during whose first state query the competing
+	// success lands
+	raceWho   string
+	raceFired bool
 	// external performs the outsider's success on the chain (which notifies
 	// the subscribers itself)
 	external func()
@@ -119,6 +126,21 @@ func (g *c47Group) endCall(idx int, outcome string) {
 	g.mu.Lock()
 	g.calls[idx].End, g.calls[idx].Outcome = s, outcome
 	g.mu.Unlock()
+}
+
+// raceNow is called by the chain stub inside a state query, after it has
+// computed the ("not yet") answer and before it returns it. It reports
+// whether the competing success must land now; the stub then performs it
+// (state flip + event to whoever is subscribed at this instant) and only
+// afterwards returns the stale answer to the member.
+func (g *c47Group) raceNow(who string) bool {
+	g.mu.Lock()
+	defer g.mu.Unlock()
+	if g.raceWho == "" || g.raceWho != who || g.raceFired || g.done {
+		return false
+	}
+	g.raceFired = true
+	return true
 }
 
 func (g *c47Group) isDone() bool { g.mu.Lock(); defer g.mu.Unlock(); return g.done }
@@ -248,10 +270,12 @@ func (g *c47Group) await(cond func() bool) bool {
 // chain calls that were nevertheless observed after the success).
 func (g *c47Group) drive(r *verifkit.Run, desc string, members []*c47Member, extBlock uint64, memberOf func(owner string) string) (conclusive bool) {
 	conclusive = true
-	var late []*c47Member
+	var late, racers []*c47Member
 	for _, m := range members {
 		if m.late {
 			late = append(late, m)
+		} else if m.racer {
+			racers = append(racers, m)
 		} else {
 			g.launch(r, desc, m)
 		}
@@ -259,7 +283,7 @@ func (g *c47Group) drive(r *verifkit.Run, desc string, members []*c47Member, ext
 	if !g.await(func() bool {
 		ws := g.waits()
 		for _, m := range members {
-			if !m.late && len(ws[m.who]) < m.need() && !g.isReturned(m.who) {
+			if !m.late && !m.racer && len(ws[m.who]) < m.need() && !g.isReturned(m.who) {
 				return false
 			}
 		}
@@ -290,6 +314,23 @@ func (g *c47Group) drive(r *verifkit.Run, desc string, members []*c47Member, ext
 			r.Inconclusive("members eligible at the launch block neither submitted nor returned")
 			return false
 		}
+	}
+	// the racers join now, at the same block: the success lands inside
+	// their state query
+	for _, m := range racers {
+		g.launch(r, desc, m)
+	}
+	if len(racers) > 0 && !g.await(func() bool {
+		ws := g.waits()
+		for _, m := range racers {
+			if len(ws[m.who]) < m.need() && !g.isReturned(m.who) {
+				return false
+			}
+		}
+		return true
+	}) {
+		r.Inconclusive("the racing member neither reached its eligibility wait nor returned")
+		return false
 	}
 	post := false
 	for {
@@ -433,6 +474,26 @@ func (c *c47Chain) SubmitInactivityClaim(claim *InactivityClaim, nonce *big.Int,
 	return c.scripted("inactivity claim", func() error { return c.localChain.SubmitInactivityClaim(claim, nonce, groupMembers) })
 }
 
+// GetDKGState / GetInactivityClaimNonce: the state queries the submitters
+// make before waiting for their slot. For the racing member the competing
+// success lands after the ("not yet") answer was read from the chain and
+// before it is handed to the member.
+func (c *c47Chain) GetDKGState() (DKGState, error) {
+	st, err := c.localChain.GetDKGState()
+	if err == nil && st == AwaitingResult && c.g.raceNow(c.who) {
+		c.g.externalSuccess()
+	}
+	return st, err
+}
+
+func (c *c47Chain) GetInactivityClaimNonce(walletID [32]byte) (*big.Int, error) {
+	n, err := c.localChain.GetInactivityClaimNonce(walletID)
+	if err == nil && c.g.raceNow(c.who) {
+		c.g.externalSuccess()
+	}
+	return n, err
+}
+
 func (c *c47Chain) DKGParameters() (*DKGParameters, error) {
 	if c.dkgParams != nil {
 		return c.dkgParams, nil
@@ -478,6 +539,7 @@ type c47Script struct {
 	Winner     int    `json:"winning_call"` // k-th chain call succeeds (0: none)
 	ExtAt      uint64 `json:"external_at"`  // block at which an outsider succeeds (0: never)
 	Late       []int  `json:"late_members,omitempty"`
+	Racer      int    `json:"racing_member,omitempty"` // the success lands during this member's state query
 	Variant    string `json:"variant"`
 	// approvals only
 	Submission uint64 `json:"submission_block,omitempty"`
@@ -493,6 +555,7 @@ func c47Owner(i int) string { return fmt.Sprintf("m%d", i) }
 // slots: participant -> waited blocks; expected: participant -> documented
 // slots (nil: no documented schedule).
 func c47Judge(r *verifkit.Run, kind, desc string, g *c47Group, reference uint64, parts []*c47Member, expected map[string][]uint64, conclusive bool) {
+	raced := g.raceWho != ""
 	ws := g.waits()
 	g.mu.Lock()
 	calls := append([]c47Call(nil), g.calls...)
@@ -500,6 +563,11 @@ func c47Judge(r *verifkit.Run, kind, desc string, g *c47Group, reference uint64,
 	g.mu.Unlock()
 	r.Case(desc, done)
 	r.Count("chain_calls", int64(len(calls)))
+	g.mu.Lock()
+	if g.raceFired {
+		r.Count("success_landed_during_state_check", 1)
+	}
+	g.mu.Unlock()
 
 	slots := map[string][]uint64{}
 	owners := map[uint64][]string{}
@@ -508,6 +576,9 @@ func c47Judge(r *verifkit.Run, kind, desc string, g *c47Group, reference uint64,
 		sort.Slice(bl, func(a, b int) bool { return bl[a] < bl[b] })
 		if m.late {
 			continue
+		}
+		if m.racer && len(bl) == 0 {
+			continue // it may leave without ever waiting
 		}
 		if len(bl) != m.need() {
 			r.Violation(kind+":no-single-slot", fmt.Sprintf("%s registered %d eligibility waits (expected %d)", m.who, len(bl), m.need()), desc, bl)
@@ -538,7 +609,11 @@ func c47Judge(r *verifkit.Run, kind, desc string, g *c47Group, reference uint64,
 	callBlocks := map[string][]uint64{}
 	for _, c := range calls {
 		if done && c.Start > successSeq && c.Outcome != "succeeded" {
-			r.Violation(kind+":submit-after-success", fmt.Sprintf("%s started a submission at block %d after the competing success at block %d", c.Who, c.Block, successBlock), desc, calls)
+			fp := kind + ":submit-after-success"
+			if raced {
+				fp += ":landed-during-state-check"
+			}
+			r.Violation(fp, fmt.Sprintf("%s started a submission at block %d after the competing success at block %d", c.Who, c.Block, successBlock), desc, calls)
 			continue
 		}
 		if strings.HasPrefix(c.Outcome, "succeeded?") {
@@ -561,6 +636,9 @@ func c47Judge(r *verifkit.Run, kind, desc string, g *c47Group, reference uint64,
 	}
 	if conclusive {
 		for _, m := range parts {
+			if m.racer {
+				continue
+			}
 			due := 0
 			for _, b := range slots[m.who] {
 				if !done || b <= successBlock {
@@ -636,6 +714,9 @@ func c47RunDkgSubmit(r *verifkit.Run, share *tecdsa.PrivateKeyShare, sc c47Scrip
 	for _, i := range sc.Late {
 		lateSet[i] = true
 	}
+	if sc.Racer != 0 {
+		g.raceWho = c47Owner(sc.Racer)
+	}
 	var members []*c47Member
 	expected := map[string][]uint64{}
 	for i := 1; i <= sc.N; i++ {
@@ -646,7 +727,7 @@ func c47RunDkgSubmit(r *verifkit.Run, share *tecdsa.PrivateKeyShare, sc c47Scrip
 		if !lateSet[i] {
 			expected[who] = []uint64{sc.Height + uint64(i-1)*dkgResultSubmissionDelayStepBlocks}
 		}
-		members = append(members, &c47Member{who: who, index: i, late: lateSet[i], run: func() error {
+		members = append(members, &c47Member{who: who, index: i, late: lateSet[i], racer: i == sc.Racer, run: func() error {
 			// upstream wiring (dkg.go generateSigningGroup): the attempt
 			// context is cancelled by the result-submitted event
 			ctx, cancel := context.WithCancel(context.Background())
@@ -690,6 +771,9 @@ func c47RunInactivity(r *verifkit.Run, share *tecdsa.PrivateKeyShare, sc c47Scri
 	for _, i := range sc.Late {
 		lateSet[i] = true
 	}
+	if sc.Racer != 0 {
+		g.raceWho = c47Owner(sc.Racer)
+	}
 	var members []*c47Member
 	expected := map[string][]uint64{}
 	for i := 1; i <= sc.N; i++ {
@@ -700,7 +784,7 @@ func c47RunInactivity(r *verifkit.Run, share *tecdsa.PrivateKeyShare, sc c47Scri
 		if !lateSet[i] {
 			expected[who] = []uint64{sc.Height + uint64(i-1)*inactivityClaimSubmissionDelayStepBlocks}
 		}
-		members = append(members, &c47Member{who: who, index: i, late: lateSet[i], run: func() error {
+		members = append(members, &c47Member{who: who, index: i, late: lateSet[i], racer: i == sc.Racer, run: func() error {
 			// upstream wiring (inactivity.go claimInactivity)
 			ctx, cancel := context.WithCancel(context.Background())
 			defer cancel()
@@ -831,6 +915,17 @@ func c47Scripts(r *verifkit.Run, kind string, maxN, nRandom int, step uint64) []
 			span += sc.Precedence
 		}
 		switch variant {
+		case "race-state":
+			for sc.Racer == 0 || func() bool {
+				for _, l := range sc.Late {
+					if l == sc.Racer {
+						return true
+					}
+				}
+				return false
+			}() {
+				sc.Racer = 1 + rng.Intn(n)
+			}
 		case "winner":
 			sc.Winner = []int{1, 2, early, 1 + rng.Intn(early), 1 + rng.Intn(early)}[rng.Intn(5)]
 		case "external":
@@ -843,8 +938,17 @@ func c47Scripts(r *verifkit.Run, kind string, maxN, nRandom int, step uint64) []
 	}
 	add(maxN, "nobody")
 	add(maxN, "winner")
+	variants := []string{"nobody", "winner", "winner", "external"}
+	if kind != "approval" {
+		// approvals have no "already approved?" state query, only the event
+		variants = append(variants, "race-state")
+		for n := 3; n <= maxN; n += 7 {
+			add(n, "race-state")
+		}
+		scripts[len(scripts)-1].Racer = 1 // the immediately eligible member as the racer
+	}
 	for i := nRandom; i > 0; i-- {
-		add(3+rng.Intn(maxN-2), []string{"nobody", "winner", "winner", "external"}[rng.Intn(4)])
+		add(3+rng.Intn(maxN-2), variants[rng.Intn(len(variants))])
 	}
 	return scripts
 }
@@ -853,7 +957,7 @@ func TestVerif_C47_TbtcDkgResult(t *testing.T) {
 	r := verifkit.Start(t, "C47", "tbtc-dkg-result")
 	defer r.Finish()
 	share := c47Fixture(t)
-	r.SetRule("group runs of dkgResultSubmitter.SubmitResult wired as generateSigningGroup wires it (context cancelled by the result-submitted event): all members 1..N, N in 3..100, concurrently on one virtual clock and the package's localChain; variants: nobody succeeds, the k-th submission succeeds, an outsider succeeds at a PRNG block, members joining after the success. non-trivial = a competing success happened in the run")
+	r.SetRule("group runs of dkgResultSubmitter.SubmitResult wired as generateSigningGroup wires it (context cancelled by the result-submitted event): all members 1..N, N in 3..100, concurrently on one virtual clock and the package's localChain; variants: nobody succeeds, the k-th submission succeeds, an outsider succeeds at a PRNG block, members joining after the success, and race-state: one member (PRNG, also the immediately eligible member 1) joins last and the competing submission (state flip + event to the subscribers of that instant) lands inside its GetDKGState query right after AwaitingResult was read. non-trivial = a competing success happened in the run")
 	r.Assume("all members read the same current block as their reference (the clock does not move while they start); losing submissions fail with an error")
 	scripts := c47Scripts(r, "dkg-result", 100, r.N(60, 2500), dkgResultSubmissionDelayStepBlocks)
 	verifkit.Parallel(len(scripts), 0, func(i int) { c47RunDkgSubmit(r, share, scripts[i]) })
@@ -863,7 +967,7 @@ func TestVerif_C47_TbtcInactivityClaim(t *testing.T) {
 	r := verifkit.Start(t, "C47", "tbtc-inactivity-claim")
 	defer r.Finish()
 	share := c47Fixture(t)
-	r.SetRule("group runs of inactivityClaimSubmitter.SubmitClaim wired as claimInactivity wires it (context cancelled by the inactivity-claimed event): all members 1..N, N in 3..100, one virtual clock, the package's localChain; variants as for the DKG result. non-trivial = a competing success happened in the run")
+	r.SetRule("group runs of inactivityClaimSubmitter.SubmitClaim wired as claimInactivity wires it (context cancelled by the inactivity-claimed event): all members 1..N, N in 3..100, one virtual clock, the package's localChain; variants as for the DKG result (race-state: the competing claim lands inside the GetInactivityClaimNonce query). non-trivial = a competing success happened in the run")
 	r.Assume("all members read the same current block as their reference; losing submissions fail with an error")
 	scripts := c47Scripts(r, "inactivity", 100, r.N(60, 2500), inactivityClaimSubmissionDelayStepBlocks)
 	verifkit.Parallel(len(scripts), 0, func(i int) { c47RunInactivity(r, share, scripts[i]) })
